@@ -1947,3 +1947,155 @@ func init() {
 			return obs
 		}})
 }
+
+// FMT.comment-loops-gated — C16 (idempotence under StripComments): whatever the printer writes
+// BECAUSE a comment is there — the comment's line, and equally the blank lines and the break
+// that separate it from what precedes — is written only when comments are kept.  A loop over
+// comment tokens that still writes the gap of a stripped comment produces text whose second
+// formatting (no comment, so no gap) differs from the first.
+func init() {
+	register(&Rule{ID: "FMT.comment-loops-gated", Floor: 2,
+		Doc: "in the formatter's printer every loop over a slice of comment tokens writes to the output only where comments are known to be kept: each call of a writing method of the printer inside such a loop is reached only over an edge entailing !Config.StripComments (typically the early `if p.cfg.StripComments { return }` of the function), or is a call of a method that gates ALL its own writes that way — so the blank lines in front of a stripped comment are stripped with it",
+		Run: func(c *Ctx) []Obligation {
+			const rid = "FMT.comment-loops-gated"
+			stripFld := c.LookupField("formatter.Config.StripComments")
+			tokT := c.LookupType("parser/token.Token")
+			if stripFld == nil || tokT == nil {
+				return []Obligation{anchorMissing(rid, "formatter.Config.StripComments / token.Token")}
+			}
+			isPrinterMethod := func(f *types.Func) bool {
+				if f == nil || f.Pkg() == nil || rel(f.Pkg().Path()) != "formatter" {
+					return false
+				}
+				sig, ok := f.Type().(*types.Signature)
+				return ok && sig.Recv() != nil && strings.HasSuffix(sig.Recv().Type().String(), "formatter.printer")
+			}
+			// writers: printer methods that (transitively) write to the buffer
+			writes := map[*types.Func]bool{}
+			units := c.Funcs(func(p string) bool { return rel(p) == "formatter" })
+			for _, u := range units {
+				if u.Decl == nil || u.Decl.Body == nil || !isPrinterMethod(u.Obj) {
+					continue
+				}
+				info := u.Pkg.TypesInfo
+				for _, ce := range callsIn(u.Decl.Body, true) {
+					if se, ok := ast.Unparen(ce.Fun).(*ast.SelectorExpr); ok {
+						if f := Callee(info, ce); f != nil && f.Pkg() != nil && (f.Pkg().Path() == "bytes" || f.Pkg().Path() == "strings") && strings.HasPrefix(f.Name(), "Write") {
+							_ = se
+							writes[u.Obj] = true
+						}
+					}
+				}
+			}
+			for changed := true; changed; {
+				changed = false
+				for _, u := range units {
+					if u.Decl == nil || u.Decl.Body == nil || !isPrinterMethod(u.Obj) || writes[u.Obj] {
+						continue
+					}
+					for _, ce := range callsIn(u.Decl.Body, true) {
+						if f := originOf(Callee(u.Pkg.TypesInfo, ce)); f != nil && writes[f] {
+							writes[u.Obj] = true
+							changed = true
+						}
+					}
+				}
+			}
+			stripCls := func(info *types.Info) func(e ast.Expr) (string, bool) {
+				return func(e ast.Expr) (string, bool) {
+					if se, ok := ast.Unparen(e).(*ast.SelectorExpr); ok && FieldOfSelector(info, se) == stripFld {
+						return "strip", false
+					}
+					return "", false
+				}
+			}
+			kept := func(v map[string]bool) bool { return v["$has:strip"] && !v["strip"] }
+			// gated: every write call of the method lies behind !StripComments
+			gated := map[*types.Func]bool{}
+			for _, u := range units {
+				if u.Decl == nil || u.Decl.Body == nil || !writes[u.Obj] {
+					continue
+				}
+				info := u.Pkg.TypesInfo
+				fc := c.cfgOf(u, nil)
+				cut := fc.edgesEntailing(stripCls(info), kept)
+				if len(cut) == 0 {
+					continue
+				}
+				all := true
+				for _, b := range fc.G.Blocks {
+					if !fc.Live(b) {
+						continue
+					}
+					for _, n := range b.Nodes {
+						for _, ce := range callsIn(n, false) {
+							f := originOf(Callee(info, ce))
+							direct := false
+							if ff := Callee(info, ce); ff != nil && ff.Pkg() != nil && (ff.Pkg().Path() == "bytes" || ff.Pkg().Path() == "strings") && strings.HasPrefix(ff.Name(), "Write") {
+								direct = true
+							}
+							if (direct || (f != nil && writes[f])) && fc.reachableAvoiding(b, cut) {
+								all = false
+							}
+						}
+					}
+				}
+				if all {
+					gated[u.Obj] = true
+				}
+			}
+			var obs []Obligation
+			for _, u := range units {
+				if u.Decl == nil || u.Decl.Body == nil || !isPrinterMethod(u.Obj) {
+					continue
+				}
+				info := u.Pkg.TypesInfo
+				var fc *FCFG
+				ord := &ordinal{}
+				ast.Inspect(u.Decl.Body, func(n ast.Node) bool {
+					rs, ok := n.(*ast.RangeStmt)
+					if !ok {
+						return true
+					}
+					tv, ok := info.Types[rs.X]
+					if !ok {
+						return true
+					}
+					sl, ok := tv.Type.Underlying().(*types.Slice)
+					if !ok {
+						return true
+					}
+					pt, ok := sl.Elem().(*types.Pointer)
+					if !ok || !types.Identical(pt.Elem(), tokT) {
+						return true
+					}
+					if fc == nil {
+						fc = c.cfgOf(u, nil)
+					}
+					cut := fc.edgesEntailing(stripCls(info), kept)
+					construct := ord.next("loop over comment tokens " + exprShape(info, rs.X))
+					bad := ""
+					for _, ce := range callsIn(rs.Body, false) {
+						f := originOf(Callee(info, ce))
+						if f == nil || !writes[f] || gated[f] {
+							continue
+						}
+						loc, ok := fc.Locate(ce)
+						if !ok {
+							continue
+						}
+						if len(cut) == 0 || fc.reachableAvoiding(loc.B, cut) {
+							bad = types.ExprString(ce)
+						}
+					}
+					if bad == "" {
+						obs = append(obs, mkOb(c, rid, u, construct, rs, Proved, "every write inside the loop happens only when comments are kept", true))
+					} else {
+						obs = append(obs, mkOb(c, rid, u, construct, rs, Violated, "`"+bad+"` writes to the output inside a loop over comment tokens on a path where comments may be stripped: the gap in front of a stripped comment survives the first formatting and disappears on the second — with StripComments, Format(\"(a)\\n\\n; note\\n\") = \"(a)\\n\\n\" and formatting that again gives \"(a)\\n\"", true))
+					}
+					return true
+				})
+			}
+			return obs
+		}})
+}
